@@ -72,5 +72,10 @@ Definition run_cmd (c : cmd) (oe : option eds) (rs_exists : name -> bool) : cmd_
 
 (** the condition list of the replica set after [canary fail] *)
 Definition R_MANUAL : name := 30%N.     (* "Manually failed" *)
+(** repaired defect D13: the command used to APPEND a Canary-Failed=True entry ([fail_conds_before_fix]); every reader
+    takes the first entry of a type, so an earlier entry that is not True shadowed it. It now updates the entry in place
+    (appending only when there is none). *)
 Definition fail_conds (cs : list cond) (now : time) : list cond :=
+  update_cond cs now CT_CanaryFailed CTrue R_MANUAL M_EMPTY false true.
+Definition fail_conds_before_fix (cs : list cond) (now : time) : list cond :=
   cs ++ [MkCond CT_CanaryFailed CTrue now now R_MANUAL M_EMPTY].
